@@ -52,20 +52,21 @@ class ScNonStatio(PDENonStatio, _Eq):
 
 
 class Scen:
-    def __init__(self, kind, B=2, k=1, tag="", hetero=None, a_shape=(), eq_order=("a", "b")):
-        self.kind, self.B, self.k = kind, B, k
+    def __init__(self, kind, B=2, k=1, tag="", hetero=None, a_shape=(), eq_order=("a", "b"), m=1):
+        """m: number of network outputs (term_specs is written for m == 1; m > 1 is for mode-equivalence obligations)"""
+        self.kind, self.B, self.k, self.m = kind, B, k, m
         self.a_shape = tuple(a_shape)
         self.eq_order = tuple(eq_order)         # the order in which the caller wrote the eq_params dictionary
         self.d = 1
         self.dp = {"ODE": 1, "statio": 1, "nonstatio": 2}[kind]        # point dimension
         eqt = {"ODE": "ODE", "statio": "statio_PDE", "nonstatio": "nonstatio_PDE"}[kind]
-        self.net = Net("N" + tag, eqt, self.dp + 1, 1, input_transform=read_a)
+        self.net = Net("N" + tag, eqt, self.dp + 1, m, input_transform=read_a)
         self.Rn = "R" + tag
-        R = Opaque(self.Rn, self.dp + 1 + self.dp + 2, k)
+        R = Opaque(self.Rn, self.dp + m + m * self.dp + 2, k)
         cls = {"ODE": ScODE, "statio": ScStatio, "nonstatio": ScNonStatio}[kind]
         self.dyn = cls(R=R, eq_params_heterogeneity=hetero) if hetero is not None else cls(R=R)
-        self.fb = OpaqueFn("fb" + tag, [(self.dp,)], (1,))
-        self.fic = OpaqueFn("fic" + tag, [(1,)], (1,))
+        self.fb = OpaqueFn("fb" + tag, [(self.dp,)], (m,))
+        self.fic = OpaqueFn("fic" + tag, [(1,)], (m,))
         self.S = 2
 
     # ---- inputs
@@ -74,7 +75,7 @@ class Scen:
         inp = [Inp("th", (1,)), Inp("a", self.a_shape), Inp("b", ()),
                Inp("pts", (B,) if self.kind == "ODE" else (B, dp)),
                Inp("wd", ()), Inp("wi", ()), Inp("wo", ()), Inp("wn", ()), Inp("wb", ()),
-               Inp("t0", ()), Inp("u0", (1,)), Inp("oin", (B, dp)), Inp("oval", (B, 1)),
+               Inp("t0", ()), Inp("u0", (self.m,)), Inp("oin", (B, dp)), Inp("oval", (B, self.m)),
                Inp("ns", (self.S, 1)), Inp("L", (), "pos"), Inp("bb", (1, dp, 2))]
         if mask_shape is not None:
             inp.append(Inp("mk", mask_shape, "bool"))
